@@ -383,6 +383,12 @@ def server_mutations():
             s["headers"].insert(0, ["X-Smuggle", "a" + ch + "Sec-WebSocket-Key: AAAAAAAAAAAAAAAAAAAAAA=="])
         m(f"syntax/smuggle/{i}", None)(f)
     m("rest/one-octet", "open")(lambda s, r: s.__setitem__("rest", "\x81"))
+    for i, ch in enumerate(["\x0b", "\x0c", "\x1c", "\x1d", "\x1e", "\x85"]):
+        # RFC 7230: header fields end with CRLF (a bare LF MAY be tolerated). These octets are data inside a field value, so this
+        # request has NO Sec-WebSocket-Key field and must be refused
+        def f(s, r, ch=ch):
+            k = hget_spec(s, "Sec-WebSocket-Key"); hdel(s, "Sec-WebSocket-Key"); s["headers"].append(["Cookie", "a=b" + ch + "Sec-WebSocket-Key: " + k])
+        m("syntax/linebreak-in-value", "reject")(f)
     # ---- no Upgrade: status page / redirect
     RD = ["/?redirect=http%3A%2F%2Fx.y", "/?redirect=http%3A%2F%2Fx.y&after=3", "/?redirect=http%3A%2F%2Fx.y&after=abc", "/?redirect=http%3A%2F%2F%5Bx",
           "/?redirect=http%3A%2F%2Fx.y&after=-1", "/?redirect=http%3A%2F%2Fx.y&after=1_0", "/?redirect=http%3A%2F%2Fx.y&after=", "/?redirect=%FF", "/?redirect=",
@@ -399,8 +405,8 @@ def server_mutations():
 def spec_to_server_case(spec, chunks=None):
     data = render(spec)
     opts = dict(spec["opts"])
-    if opts and "allowNullOrigin" not in opts:
-        opts["allowNullOrigin"] = True            # setProtocolOptions resets it to False when not passed
+    if (opts or spec["accept"]) and "allowNullOrigin" not in opts:
+        opts["allowNullOrigin"] = True            # setProtocolOptions(...) resets it to False whenever it is not passed explicitly
     return {"opts": opts, "factory": spec["factory"], "others": spec["others"], "policy": spec["policy"], "accept": spec["accept"],
             "chunks": [c.hex() for c in (chunks if chunks is not None else [data])]}, data
 
@@ -542,6 +548,10 @@ def client_mutations():
             hdel(s, "Sec-WebSocket-Accept"); s["headers"].append(["X-S", "a" + ch + "Sec-WebSocket-Accept: " + digest(s["key"])])
         m(f"syntax/smuggle/{i}", None)(f)
     m("rest/one-octet", "open")(lambda s, r: s.__setitem__("rest", "\x81"))
+    for i, ch in enumerate(["\x0b", "\x0c", "\x1c", "\x1d", "\x1e", "\x85"]):
+        def f(s, r, ch=ch):       # no Sec-WebSocket-Accept field: the digest sits inside another field's value
+            hdel(s, "Sec-WebSocket-Accept"); s["headers"].append(["X-Info", "a" + ch + "Sec-WebSocket-Accept: " + digest(s["key"])])
+        m("syntax/linebreak-in-value", "reject")(f)
     return M
 
 
